@@ -10,12 +10,17 @@
 
 template class frg::vector<wit::Elem, wit::Alloc>;
 template wit::Elem &frg::vector<wit::Elem, wit::Alloc>::emplace_back<int>(int &&);
+// emplace_back(v[0]) / emplace_back(std::move(v[0])): the forwarding parameter bound to an element
+template wit::Elem &frg::vector<wit::Elem, wit::Alloc>::emplace_back<const wit::Elem &>(const wit::Elem &);
+template wit::Elem &frg::vector<wit::Elem, wit::Alloc>::emplace_back<wit::Elem>(wit::Elem &&);
 template void frg::vector<wit::Elem, wit::Alloc>::resize<>(size_t);
 template void frg::vector<wit::Elem, wit::Alloc>::resize<const wit::Elem &>(size_t, const wit::Elem &);
 template void frg::vector<wit::Elem, wit::Alloc>::resize<wit::Elem>(size_t, wit::Elem &&);
 
 template class frg::small_vector<wit::Elem, 4, wit::Alloc>;
 template wit::Elem &frg::small_vector<wit::Elem, 4, wit::Alloc>::emplace_back<int>(int &&);
+template wit::Elem &frg::small_vector<wit::Elem, 4, wit::Alloc>::emplace_back<const wit::Elem &>(const wit::Elem &);
+template wit::Elem &frg::small_vector<wit::Elem, 4, wit::Alloc>::emplace_back<wit::Elem>(wit::Elem &&);
 template void frg::small_vector<wit::Elem, 4, wit::Alloc>::resize<>(size_t);
 template void frg::small_vector<wit::Elem, 4, wit::Alloc>::resize<wit::Elem>(size_t, wit::Elem &&);
 
